@@ -31,6 +31,7 @@ struct E3 : Engine {
 			else if(x < 89){ o["op"] = "remove"; o["k"] = (int)r.below(nkeys); }
 			else if(x < 92 && allow_all){ o["op"] = "clear"; }
 			else if(x < 96 && allow_all){ o["op"] = "stats"; }
+			else if(x < 98 && allow_all){ o["op"] = "handle"; }   /* the thread takes a handle of its own to the cache and drops it again (what cache_pool::get() / cache_interface do once per request): the reference count is shared state too */
 			else { o["op"] = "fetch"; o["k"] = (int)r.below(nkeys); o["how"] = 0; }
 			return o; };
 		for(int i=0;i<npre;i++){ J o = mk(false); pre.push(o); }
@@ -81,6 +82,7 @@ struct E3 : Engine {
 			else if(op.kind == "remove") c.remove(op.key);
 			else if(op.kind == "clear") c.clear();
 			else if(op.kind == "stats") c.stats(op.rkeys,op.rtrigs);
+			else if(op.kind == "handle"){ booster::intrusive_ptr<base_cache> h(&c); simk::yield(); }
 			op.ret = ++clock;
 		};
 		size_t nthreads = 0; uint64_t overlap = 0; std::map<std::string,std::set<std::string>> pre_vals;
